@@ -188,7 +188,7 @@ func (x *Exec) assume(t Term) {
 
 // define introduces a named constant equal to t when t is large.
 func (x *Exec) define(hint string, t Term) Term {
-	if len(t.S) < 48 || x.quantDepth > 0 {
+	if len(t.S) < 48 || x.quantDepth > 0 || hasQuant(t) {
 		return t
 	}
 	c := x.fresh(hint, t.Sort)
@@ -235,6 +235,12 @@ func (x *Exec) andPC(pc, c Term) Term {
 		return pc
 	}
 	t := And(pc, c)
+	if hasQuant(c) {
+		// never hide a quantifier under a named Boolean: a one-directional definition keeps it instantiable
+		n := x.fresh("pc", SBool)
+		x.assume(Implies(n, t))
+		return n
+	}
 	if len(t.S) > 60 {
 		n := x.fresh("pc", SBool)
 		x.assume(Eq(n, t))
@@ -1481,4 +1487,8 @@ func (x *Exec) edge(fr *Frame, from, to *ssa.BasicBlock, st *State) {
 		return
 	}
 	fr.incoming[to] = append(fr.incoming[to], edgeIn{st, from})
+}
+
+func hasQuant(t Term) bool {
+	return strings.Contains(t.S, "(forall ") || strings.Contains(t.S, "(exists ") || strings.Contains(t.S, "(lambda ")
 }
